@@ -142,6 +142,25 @@ Reads ==
        Sc("rd-resp-5", rw, << <<>> >>, <<>>, TRUE, << P5 >>, << Propagate >>),
        Sc("rd-resp-2", rw, << <<>> >>, <<>>, TRUE, << P2 >>, << Propagate >>) }
 
+\* family "beyond": behaviour the code has but no listed property assumes - clients that pipeline requests without
+\* waiting, attempt to multiplex, or send unknown roles; the specification follows the code (close() may run through
+\* the records of a pipelined request while it looks for a record boundary) and the replay binds it
+Beyond ==
+  LET pre == PreItems(Own, 1, 1, 0)
+      s3 == IStream(TStdin, Own, 3, 1)
+      s0 == IStream(TStdin, Own, 0, 0)
+      next == PreItems(Other, 1, 0, 0) \o << IStream(TStdin, Other, 0, 0) >>
+  IN {
+    Sc("pipeline-read", pre \o << s3, s0 >> \o next, << <<>>, <<>> >>, <<>>, TRUE, << EchoProg, ReadAllRet >>, << Propagate, Propagate >>),
+    Sc("pipeline-unread", pre \o << s3, s0 >> \o next, << <<>>, <<>> >>, <<>>, TRUE, << LazyProg, ReadAllRet >>, << Propagate, Propagate >>),
+    Sc("pipeline-part", pre \o << IStream(TStdin, Own, 5, 3), s0 >> \o next, << <<>>, <<>> >>, <<>>, TRUE, << PartProg, ReadAllRet >>, << Propagate, Propagate >>),
+    Sc("mpx-in-params", << IBegin(Own, 1, 1, 0), IBegin(Other, 1, 0, 0), IParams(Own, 0, 0), s3, s0 >>, << <<>> >>, <<>>, TRUE, << EchoProg >>, << Propagate >>),
+    Sc("mpx-in-stream", pre \o << s3, IBegin(Other, 1, 0, 0), IParams(Other, 0, 0), s0 >>, << <<>> >>, <<>>, TRUE, << EchoProg >>, << Propagate >>),
+    Sc("unknown-role", << IBegin(Own, 9, 1, 0) >> \o next, << <<>> >>, <<>>, TRUE, << ReadAllRet >>, << Propagate >>),
+    Sc("bad-version-mid", pre \o << s3, IRaw(7, TStdin, Own, 0, 0) >>, << <<>> >>, <<>>, TRUE, << ReadAllRet >>, << Propagate >>),
+    Sc("null-request", << IBegin(0, 1, 0, 0) >>, << >>, <<>>, TRUE, << ReadAllRet >>, << Propagate >>)
+  }
+
 WithFaults(S) ==
   S \cup UNION { UNION {
        (IF "eof" \in Faults THEN { [x EXCEPT !.fault = [k |-> "eof", at |-> o], !.tag = x.tag \o "+eof"] : o \in 0..x.w.len } ELSE {})
@@ -151,7 +170,7 @@ WithFaults(S) ==
      } : x \in S }
 
 ScSet == WithFaults((IF "basic" \in Menu THEN Basic ELSE {}) \cup (IF "query" \in Menu THEN Query ELSE {}) \cup (IF "abort" \in Menu THEN Abort ELSE {})
-                      \cup (IF "reads" \in Menu THEN Reads ELSE {}))
+                      \cup (IF "reads" \in Menu THEN Reads ELSE {}) \cup (IF "beyond" \in Menu THEN Beyond ELSE {}))
 ScSeq == TLCEval(SetToSeq(ScSet))
 
 \* ------------------------------------------------------------------ behaviour
